@@ -5,6 +5,8 @@ exactly (all dict orders), and how the iteration ends (StopIteration after the l
 exception that leaves the generator). The parser is not modelled: patterns reach the model parsed by
 the real Parser(use_multigraph=True) at offset 0; parse(pattern, idx_offset=m) = shift by m is an
 assumption that is validated here on every pattern used (offsets 3 and 17)."""
+import copy
+
 import networkx as nx
 
 import lib
@@ -12,13 +14,13 @@ import coqterm as ct
 import ctmulti as cm
 import proxycfg as pc
 from fgutils.parse import Parser
-from fgutils.proxy import Proxy, MolProxy, ReactionProxy, ProxyGroup, ProxyGraph, build_graphs
+from fgutils.proxy import Proxy, MolProxy, ReactionProxy, ProxyGroup, ProxyGraph, build_graphs, build_group_tree
 
 ID = "C14"
 REPEAT_PROBE = True   # engine: repeat 1 call in 5 after editing its first result in place (purity / no shared state)
 PROPS = "Props/C14.v"
-MODEL_FILES = ["Model/ProxyGen.v", "Gen/ProxyDA.v", "Spec/ProxyGenCheck.v", "Spec/ProxyRefCheck.v", "Spec/ProxyParserCheck.v"]
-IMPORTS = "From FGV Require Import Base.NXMulti Model.Proxy Model.ProxyTerms Model.ProxyGen Spec.ProxyGenSpec Spec.ProxyGenCheck Spec.ProxyRefCheck Spec.ProxyParserCheck Gen.ProxyDA."
+MODEL_FILES = ["Model/ProxyGen.v", "Gen/ProxyDA.v", "Spec/ProxyGenCheck.v", "Spec/ProxyRefCheck.v", "Spec/ProxyParserCheck.v", "Model/ProxyDict.v", "Model/ProxyTree.v"]
+IMPORTS = "From FGV Require Import Base.NXMulti Model.Proxy Model.ProxyTerms Model.ProxyGen Spec.ProxyGenSpec Spec.ProxyGenCheck Spec.ProxyRefCheck Spec.ProxyParserCheck Model.ProxyDict Model.ProxyTree Gen.ProxyDA."
 CHECKS = ["agree", "spec", "bonds"]
 USES_GEN = ["proxyda"]
 CHUNK = 25
@@ -26,7 +28,9 @@ CORRESPONDENCE = ("Model.ProxyGen.{proxy_all,generate_loop,gen_for,build_graphs,
                   "replace_next_node,get_next_group_node,is_group_node,sample_unique,sample_all,finish} ~ "
                   "fgutils.proxy.{Proxy.__generate,build_graphs,replace_next_node,_get_next_group_node,"
                   "_is_group_node,GraphSampler.sample,ProxyGroup.sample_graphs} (+ Model.Proxy.replace_node_multi ~ "
-                  "replace_node, Base.NXMulti.to_simple ~ nx.Graph(multigraph)); whole enumeration as a list, "
+                  "replace_node, Base.NXMulti.to_simple ~ nx.Graph(multigraph)); Model.ProxyDict.{proxy_from_dict,from_dict,group_of,"
+                  "from_dict_single,graphs_of,graph_of} ~ Proxy.from_dict, ProxyGroup.from_dict, ProxyGroup.from_dict_single, "
+                  "ProxyGraph( **dict); Model.ProxyTree.{group_tree,add_node} ~ fgutils.proxy.build_group_tree; whole enumeration as a list, "
                   "exact graph equality incl. dict orders, and the terminal event")
 RULE = ("random acyclic group DAGs: 1-5 groups on levels 1-4, a group references only groups of lower level (depth <= 4), "
         "1-3 ProxyGraphs per group, patterns of 0-5 atoms ('' = the empty pattern 12%) with branches, rings (also closed "
@@ -48,6 +52,15 @@ RULE = ("random acyclic group DAGs: 1-5 groups on levels 1-4, a group references
         "graphs) and a proxy over the SAME group objects is built again (same arguments / another core / through the "
         "`proxy.groups` setter with a ProxyGroup | list | dict) and enumerated: this second enumeration is compared with "
         "the model and the checkers for the NEW configuration. "
+        "30% of the cases without history/parser are BUILT FROM DICTS: an equivalent JSON-style configuration (group as "
+        "string / list of strings and dicts / {graphs: str | dict | list}, {pattern, anchor} dicts with extra property "
+        "keys and 'name', core as string or list, enable_aam present or not) goes through Proxy.from_dict / "
+        "ReactionProxy.from_dict / MolProxy.from_dict / cls(core, ProxyGroup.from_dict(..)) / ProxyGroup.from_dict_single; "
+        "the model normalises the same dict (Model.ProxyDict.proxy_from_dict) and must give the configuration the live "
+        "object holds and the same enumeration; 14 dict configurations the entry points reject (TypeError / ValueError "
+        "no graphs / missing pattern / AttributeError / IndexError), compared by exception kind; ~50 build_group_tree cases "
+        "on small acyclic configurations (a few with a label that names no group: KeyError), tree compared exactly "
+        "(node names in order, adjacency lists in order) with Model.ProxyTree.group_tree. "
         "non-trivial = at least 2 results and a group referenced from a group; distinct = distinct configuration + history + parser")
 TRUSTED = ["the pattern parser (not part of this property): patterns reach the model as the MultiGraphs the real "
            "Parser(use_multigraph=True) returns at offset 0",
@@ -315,7 +328,46 @@ def decorate(rng, c, limit):
         c["parser"] = rng.choice(PARSERS)
     if not c.get("drive") and c.get("parser") is None and rng.random() < 0.2:
         make_reconf(rng, c, limit)
+    if not c.get("drive") and c.get("parser") is None and not c.get("reconf") and rng.random() < 0.3:
+        make_dict(rng, c)
     return c
+
+
+ENTRIES = ["Proxy.from_dict", "Proxy.from_dict", "ReactionProxy.from_dict", "MolProxy.from_dict", "groups_from_dict",
+           "groups_from_dict", "from_dict_single"]
+
+
+def make_dict(rng, c):
+    """Build the proxy through the documented JSON-style entry points from an equivalent dict configuration
+    (short form string, list of strings, {"pattern","anchor"} dict, list of such dicts, extra property keys)."""
+    cfg = c["cfg"]
+    if not cfg["groups"] or not cfg["core"] or any(k != n for k, n, _ in cfg["groups"]):
+        return c
+    cfg["core"] = [[p, [0]] for p, _ in cfg["core"]]
+    c["dict"] = {"conf": pc.dict_forms(rng, cfg), "entry": rng.choice(ENTRIES)}
+    if c["dict"]["entry"].endswith(".from_dict"):
+        c["cls"] = "Proxy"          # the static method returns a plain Proxy whatever class it is called on
+    c["how"] = "dict"
+    return c
+
+
+BAD_CONFS = [
+    ({"core": "C{g}", "groups": {"g": {}}}, "JNoGraphs"),
+    ({"core": "C{g}", "groups": {"g": []}}, "JNoGraphs"),
+    ({"core": "C{g}", "groups": {"g": {"graphs": []}}}, "JNoGraphs"),
+    ({"core": "C{g}", "groups": {"g": {"graphs": {"anchor": [0]}}}}, "JTypeError"),
+    ({"core": "C{g}", "groups": {"g": {"graphs": {"pattern": None}}}}, "JNoPattern"),
+    ({"core": "C{g}", "groups": {"g": {"graphs": 5}}}, "JTypeError"),
+    ({"core": "C{g}", "groups": {"g": 5}}, "JAttributeError"),
+    ({"core": "C{g}", "groups": {"g": ["C", 5]}}, "JTypeError"),
+    ({"core": "C{g}", "groups": {"h": "N", "g": ["C", {"anchor": [0], "order": 1}]}}, "JTypeError"),
+    ({"core": "C{g}", "groups": {}}, "JIndexError"),
+    ({"core": [], "groups": {"g": "C"}}, "JNoGraphs"),
+    ({"core": [], "groups": {}}, "JNoGraphs"),
+    ({"core": ["C{g}", "N"], "groups": {"g": {"graphs": [{"pattern": "CC", "anchor": [1]}, {"pattern": None}]}}}, "JNoPattern"),
+    ({"core": "C{g}", "groups": {"a": "C", "g": {"graphs": ["C", {"pattern": "O", "x": 1}, []]}}}, "JTypeError"),
+]
+JERR_OF = {"TypeError": "JTypeError", "AttributeError": "JAttributeError", "IndexError": "JIndexError"}
 
 
 COMMON_CORES = ["C{alkyl}", "{aryl}C{halogen}", "C{amine}", "{any}", "C{alkene}C", "{carbon_chain}1CC1", "N{ester}{H}",
@@ -365,6 +417,26 @@ def generate(seed, tier, ncases=None):
             r = rng.random()
             lim = limit if r < 0.12 else 300 if r < 0.7 else 40
         yield decorate(lib.rng_for(seed, ID + "deco", i), gen_config(rng, lim, big=not quick), lim)
+    # construction from dicts that the entry points reject
+    for conf, err in BAD_CONFS:
+        yield {"kind": "dicterr", "cfg": {"core": [], "groups": [], "aam": True}, "how": "dict", "cls": "Proxy",
+               "dict": {"conf": conf, "entry": "Proxy.from_dict"}, "expected_err": err}
+    # build_group_tree against its model
+    for i in range(60 if quick else 500):
+        rng = lib.rng_for(seed, ID + "tree", i)
+        for _ in range(40):
+            c = gen_config(rng, 40)
+            names = set(k for k, _, _ in c["cfg"]["groups"])
+            foreign = any(l not in names for p in pc.all_patterns(c["cfg"]) for _, d in (ok_pattern(p) or nx.Graph()).nodes(data=True)
+                          for l in d["labels"])
+            # a label that names no group makes build_group_tree raise KeyError: keep a few of those
+            if not any(k != nm for k, nm, _ in c["cfg"]["groups"]) and (not foreign or rng.random() < 0.012):
+                break
+        else:
+            continue
+        yield {"kind": "tree", "cfg": c["cfg"], "how": "dict", "cls": "Proxy", "expected": c["expected"],
+               "tree": {"parser": rng.choice([None, None, [False, False], [True, False]]),
+                        "single": len(c["cfg"]["groups"]) == 1 and rng.random() < 0.5}}
     # shipped collections with small cores
     for j, core in enumerate(COMMON_CORES):
         rng = lib.rng_for(seed, ID + "common", j)
@@ -377,6 +449,16 @@ def generate(seed, tier, ncases=None):
             cnt = pc.count_formula(cfg)
             if cnt <= limit:
                 yield {"kind": "dasub", "cfg": cfg, "how": "dict", "cls": "Proxy", "expected": cnt, "neg": neg}
+
+
+def json_sub(x, old, new):
+    if isinstance(x, str):
+        return new if x == old else x
+    if isinstance(x, list):
+        return [json_sub(y, old, new) for y in x]
+    if isinstance(x, dict):
+        return {k: json_sub(v, old, new) for k, v in x.items()}
+    return x
 
 
 def _mk(core, groups, aam=True, how="dict", cls="Proxy"):
@@ -444,6 +526,25 @@ def corpus():
     c["reconf"] = {"old_core": [["C{a}{b}", [0]]], "old_groups": [["a", "a", [["C{b}", [0]]]], ["b", "b", [["F", [0]], ["Cl", [0]], ["Br", [0]]]]],
                    "changed": ["a", "b"], "forms": {"a": "liststr", "b": "listpg"}, "via": "recreate"}
     yield c
+    # test/test_proxy.py: test_create_proxy_tree, test_proxy_tree_with_two_groups; the docstring counter-examples
+    for core, gl in ((["{g1,g2,g3}"], [("g1", ["O"]), ("g2", ["C{g1}"]), ("g3", ["N"])]),
+                     (["{g1,g2}{g1,g3}"], [("g1", ["O"]), ("g2", ["C{g1}"]), ("g3", ["N"])]),
+                     (["C{g}"], [("g", ["C", "O", "N"])]), (["{g}{g}"], [("g", ["C", "O"])]),
+                     (["{g}{x_1}"], [("g", ["C"])])):
+        c = _mk(core, gl)
+        c["kind"] = "tree"
+        c["tree"] = {"parser": None, "single": False}
+        yield c
+    # test/test_proxy.py: test_init configurations (ReactionProxy.from_dict)
+    for conf in ({"core": "A", "groups": {"test": {"graphs": [{"pattern": "BB", "anchor": [0], "order": 7}]}}},
+                 {"core": "A", "groups": {"test": {"graphs": {"pattern": "BB", "anchor": [0]}}}},
+                 {"core": "A", "groups": {"test": {"graphs": ["BB"]}}}, {"core": "A", "groups": {"test": {"graphs": "BB"}}},
+                 {"core": ["A"], "groups": {"test": "BB"}}, {"core": "A", "groups": {"test": ["BB"]}}):
+        conf = dict(conf, core="C{test}" if conf["core"] == "A" else ["C{test}"])
+        conf["groups"] = {"test": json_sub(conf["groups"]["test"], "BB", "NO")}
+        c = _mk(["C{test}"], [("test", ["NO"])])
+        c["dict"] = {"conf": conf, "entry": "ReactionProxy.from_dict"}
+        yield c
     # explicit parsers: init_aam / use_multigraph, with and without enable_aam
     for ps in PARSERS:
         for aam, cls in ((True, "Proxy"), (False, "Proxy"), (False, "MolProxy")):
@@ -616,7 +717,62 @@ def repeat_ok(c):
     return c["kind"] != "da"
 
 
+def _from_dict(c, cls):
+    """the proxy built through the JSON-style entry points (the dict is copied: from_dict rewrites it)"""
+    d = c["dict"]
+    conf = copy.deepcopy(d["conf"])
+    entry = d["entry"]
+    if entry.endswith(".from_dict"):
+        return {"Proxy": Proxy, "ReactionProxy": ReactionProxy, "MolProxy": MolProxy}[entry.split(".")[0]].from_dict(conf)
+    if entry == "from_dict_single":
+        groups = {}
+        for k, v in conf["groups"].items():
+            if isinstance(v, str):
+                v = [v]
+            if isinstance(v, list):
+                v = {"graphs": v}
+            groups[k] = ProxyGroup.from_dict_single(k, v)
+    else:
+        groups = ProxyGroup.from_dict(conf["groups"])
+    if cls is MolProxy:
+        return cls(conf["core"], groups)
+    return cls(conf["core"], groups, enable_aam=conf.get("enable_aam", True))
+
+
+def _run_tree(c):
+    cfg, t = c["cfg"], c["tree"]
+    groups = [ProxyGroup(name, [ProxyGraph(p, anchor=list(a)) for p, a in graphs]) for _, name, graphs in cfg["groups"]]
+    core = ProxyGroup("core", [ProxyGraph(p, anchor=list(a)) for p, a in cfg["core"]])
+    arg = groups[0] if t.get("single") and len(groups) == 1 else groups
+    try:
+        if t.get("parser") is None:
+            tree = build_group_tree(core, arg)
+        else:
+            tree = build_group_tree(core, arg, parser=pc.make_parser(t["parser"]))
+    except KeyError as e:
+        return {"status": "KeyError", "key": e.args[0], "graphs": [], "n": 0, "stays": True, "msgs": []}
+    adj = [[n, list(tree._adj[n])] for n in tree._adj]
+    msgs = []
+    if list(tree._node) != [n for n, _ in adj] or any(tree._node[n] for n in tree._node):
+        msgs.append("the tree's node dict is not what its adjacency dict says")
+    if tree.number_of_edges() != tree.number_of_nodes() - 1 or not nx.is_connected(tree):
+        msgs.append("build_group_tree did not return a tree")
+    leaves = sum(1 for i, (n, a) in enumerate(adj) if len(a) == (0 if i == 0 else 1))
+    return {"status": "done", "adj": adj, "leaves": leaves, "graphs": [], "n": len(adj), "stays": True, "msgs": msgs}
+
+
 def run_impl(c):
+    if c["kind"] == "tree":
+        return _run_tree(c)
+    if c["kind"] == "dicterr":
+        try:
+            _from_dict(c, Proxy)
+            return {"graphs": [], "status": "ctor:none", "stays": True, "n": 0, "msgs": []}
+        except Exception as e:       # noqa: the exception class is the result
+            name = type(e).__name__
+            if name == "ValueError":
+                name = "JNoGraphs" if "has no graphs" in str(e) else "JNoPattern" if "Missing config" in str(e) else name
+            return {"graphs": [], "status": "ctor:" + JERR_OF.get(name, name), "stays": True, "n": 0, "msgs": []}
     if c["kind"] == "da":
         key = c["neg"]
         if key not in _da_cache:
@@ -634,6 +790,10 @@ def run_impl(c):
         p, graphs, status, stays, msgs = _alternate(cfg, cls, c.get("parser"))
     elif c.get("reconf"):
         p = _reconfigured(c, cls)
+    elif c.get("dict"):
+        p = _from_dict(c, cls)
+        if c["dict"]["entry"].endswith(".from_dict") and type(p) is not Proxy:
+            msgs.append("%s returned a %s" % (c["dict"]["entry"], type(p).__name__))
     else:
         p = pc.build_proxy(cfg, cls=cls, how=c["how"], parser=c.get("parser"))
     try:
@@ -685,6 +845,24 @@ def coq_case(c, out):
         spec = "C14_slice_full_okb %s $out" % name
         # no shipped Diels-Alder expansion has parallel bonds: theorem C14_DA_no_parallel
         return {"defs": defs, "checks": {"agree": agree, "spec": spec, "bonds": "true"}, "diag": []}
+    if c["kind"] == "tree":
+        defs = {"cfg": pc.cfg_term(c["cfg"])}
+        if out["status"] == "done":
+            exp = "(Some %s)" % ct.lst(["(%s, %s)" % (ct.s(n), ct.lst([ct.s(x) for x in a])) for n, a in out["adj"]])
+            key = '""'
+        else:
+            exp, key = "None", ct.s(out["key"])
+        agree = "tree_agree (group_tree \"core\" $cfg) %s %s" % (exp, key)
+        return {"defs": defs, "checks": {"agree": agree, "spec": "true", "bonds": "true"},
+                "diag": ["group_tree \"core\" $cfg"]}
+    if c["kind"] == "dicterr":
+        conf = c["dict"]["conf"]
+        defs = {"tbl": pc.table_term(pc.conf_patterns(conf)), "jgroups": pc.jgroups_term(conf["groups"])}
+        aam = "(Some %s)" % ct.b(conf["enable_aam"]) if "enable_aam" in conf else "None"
+        model = "proxy_from_dict string (jparse $tbl) %s $jgroups %s" % (pc.jcore_term(conf["core"]), aam)
+        st = out["status"].split(":", 1)[1]
+        agree = "dict_err_agree (%s) %s" % (model, st) if st.startswith("J") else "false"
+        return {"defs": defs, "checks": {"agree": agree, "spec": "true", "bonds": "true"}, "diag": []}
     cfg = eff_cfg(c)
     if c["kind"] in ("common", "dasub"):
         # the shipped group dicts are the definitions of Gen/ProxyDA.v (regenerated from the same tree)
@@ -709,6 +887,16 @@ def coq_case(c, out):
         if ps[1] and not cfg["aam"]:
             okb = "C14_full_noaam_okb"
     spec = "%s $cfg $out" % okb if out["status"] == "done" else "C14_err_okb $cfg"
+    if c.get("dict"):
+        # the model of the construction path: normalising the dict gives the configuration the live object holds
+        # (c["cfg"], checked against dump_proxy) and that configuration enumerates what the implementation yielded
+        conf = c["dict"]["conf"]
+        defs["tbl"] = pc.table_term(pc.conf_patterns(conf))
+        defs["jgroups"] = pc.jgroups_term(conf["groups"])
+        aam = "(Some %s)" % ct.b(conf["enable_aam"]) if "enable_aam" in conf and c["cls"] != "MolProxy" else \
+            ("(Some false)" if c["cls"] == "MolProxy" else "None")
+        agree = "dict_agree (proxy_from_dict string (jparse $tbl) %s $jgroups %s) $cfg ($out, %s)" % (
+            pc.jcore_term(conf["core"]), aam, STATUS[out["status"]])
     # bond conservation as the property states it fails exactly when some expansion has parallel bonds:
     # nx.Graph(multigraph) keeps only one of them (C14_collapse_refuted; known finding KF-C14-collapse)
     bonds = "negb (C14_parallel_leaf $cfg)" if out["status"] == "done" else "true"
@@ -719,7 +907,8 @@ def coq_case(c, out):
 def describe(c):
     d = {"kind": c["kind"], "cfg": c["cfg"] if c["kind"] != "da" else "DielsAlderProxy(neg_sample=%s)" % c["neg"],
          "how": c["how"], "cls": c["cls"], "expected": c.get("expected"), "neg": c.get("neg"),
-         "drive": c.get("drive"), "parser": c.get("parser"), "reconf": c.get("reconf")}
+         "drive": c.get("drive"), "parser": c.get("parser"), "reconf": c.get("reconf"),
+         "dict": c.get("dict"), "tree": c.get("tree"), "expected_err": c.get("expected_err")}
     if c["kind"] == "da":
         d["neg"] = c["neg"]
         d["slice"] = c["slice"]
@@ -735,10 +924,13 @@ def from_json(d):
     cfg = {"core": [[p, list(a)] for p, a in cfg["core"]],
            "groups": [[k, n, [[p, list(a)] for p, a in gl]] for k, n, gl in cfg["groups"]], "aam": cfg["aam"]}
     return {"kind": d["kind"], "cfg": cfg, "how": d["how"], "cls": d["cls"], "expected": d.get("expected"),
-            "neg": d.get("neg"), "drive": d.get("drive"), "parser": d.get("parser"), "reconf": d.get("reconf")}
+            "neg": d.get("neg"), "drive": d.get("drive"), "parser": d.get("parser"), "reconf": d.get("reconf"),
+            "dict": d.get("dict"), "tree": d.get("tree"), "expected_err": d.get("expected_err")}
 
 
 def describe_out(out):
+    if "adj" in out or "key" in out:
+        return {"status": out["status"], "tree": out.get("adj"), "key": out.get("key"), "leaves": out.get("leaves")}
     return {"status": out["status"], "n": out["n"], "stays_exhausted": out["stays"],
             "graphs": [ct.graph_py(g) for g in out["graphs"][:4]]}
 
@@ -750,7 +942,8 @@ def key(c):
     return (tuple((p, tuple(a)) for p, a in cfg["core"]),
             tuple((k, n, tuple((p, tuple(a)) for p, a in gl)) for k, n, gl in cfg["groups"]), cfg["aam"],
             tuple(c.get("drive") or ()), tuple(c.get("parser") or ()),
-            repr(c["reconf"]) if c.get("reconf") else None)
+            repr(c["reconf"]) if c.get("reconf") else None, repr(c["dict"]) if c.get("dict") else None,
+            repr(c["tree"]) if c.get("tree") else None, c["kind"] in ("tree", "dicterr"))
 
 
 def _nested(cfg):
@@ -764,6 +957,10 @@ def _nested(cfg):
 
 
 def nontrivial(c, out):
+    if c["kind"] == "tree":
+        return out["n"] >= 3
+    if c["kind"] == "dicterr":
+        return True
     return out["n"] >= 2 and (c["kind"] == "da" or _nested(c["cfg"]))
 
 
@@ -784,6 +981,14 @@ def _has_parallel_leaf(c):
 def classes(c, out):
     yield "kind=" + c["kind"]
     yield "status=" + out["status"]
+    if c["kind"] == "dicterr":
+        return
+    if c["kind"] == "tree":
+        # observation (documentation vs code): "the number of leave nodes is the number of possible samples"
+        if out["status"] == "done" and c.get("expected") is not None:
+            yield "tree_leaves_vs_samples=" + ("equal" if out["leaves"] == c["expected"] else
+                                               "fewer_leaves" if out["leaves"] < c["expected"] else "more_leaves")
+        return
     n = out["n"]
     yield "results=" + ("0" if n == 0 else "1" if n == 1 else "2-9" if n < 10 else "10-99" if n < 100 else "100-999" if n < 1000 else "1000+")
     if c["kind"] == "da":
@@ -796,6 +1001,11 @@ def classes(c, out):
             yield "history_splits_enumeration=yes"
     if c.get("parser") is not None:
         yield "parser=use_multigraph:%s,init_aam:%s" % tuple(c["parser"])
+    if c.get("dict"):
+        yield "built_from_dict=%s" % c["dict"]["entry"]
+        for v in c["dict"]["conf"]["groups"].values():
+            yield "dict_group_form=" + ("str" if isinstance(v, str) else "list" if isinstance(v, list) else
+                                        "dict/" + type(v.get("graphs")).__name__)
     if c.get("reconf"):
         yield "reconfigured=%s" % c["reconf"]["via"]
         for f in sorted(set(c["reconf"]["forms"].values())):
@@ -823,6 +1033,12 @@ def classes(c, out):
 
 def py_invariants(c, out):
     msgs = list(out["msgs"])
+    if c["kind"] == "dicterr":
+        if out["status"] != "ctor:" + c["expected_err"]:
+            msgs.append("construction from the dict ended with %s, expected %s" % (out["status"], c["expected_err"]))
+        return msgs
+    if c["kind"] == "tree":
+        return msgs
     msgs += pc.shift_messages(c["cfg"], parser_mg(c))
     if not out["stays"]:
         msgs.append("the exhausted proxy yielded again")
